@@ -83,8 +83,8 @@ Hypothesis flagged_assoc : forall o, comm_of tb o = true ->
 Lemma parsed_wf text ts vars (fx : flatex D) : make_expression tb true text ts vars = Ok fx ->
   flat_wf fx /\ assoc_ok C R (fops fx).
 Proof.
-  intros H. destruct (make_expression_shape tb true text ts vars fx H) as (H1 & H2 & _ & _ & H5).
-  split; [split; assumption|]. intros o Ho Hc. apply flagged_assoc. rewrite <- (H5 o Ho). exact Hc.
+  intros H. destruct (make_expression_shape tb true text ts vars fx H) as (H1 & H2 & _ & _ & H5 & _).
+  split; [split; assumption|]. intros o Ho Hc. apply flagged_assoc. rewrite <- (proj1 (H5 o Ho)). exact Hc.
 Qed.
 
 Theorem compile_parsed text ts vars (fx : flatex D) : make_expression tb true text ts vars = Ok fx ->
